@@ -33,9 +33,21 @@ def _tree(case):
 
 
 def check_case(case, acc):
+    if case.get("mutations"):
+        tree = forest.build_tree(case["shape"], nodes.factory(case["cls"]))
+        labels = forest.Labels(tree)
+        _once(case, acc, tree, labels)
+        for op in case["mutations"]:
+            refs.mutate_tree(tree, op)
+            _once(case, acc, tree, labels)
+            acc.tag("rechecked_after_mutation")
+        return
     tree = _tree(case)
+    _once(case, acc, tree, forest.Labels(tree))
+
+
+def _once(case, acc, tree, labels):
     start = tree[case["start"]]
-    labels = forest.Labels(tree)
     stop_ids = {id(tree[i]) for i in case["stop"]}
     hide_ids = {id(tree[i]) for i in case["hide"]}
     maxlevel = case["maxlevel"]
@@ -156,6 +168,7 @@ def random_cases(draw):
         "maxlevel": maxlevel,
         "none_when_empty": draw(st.booleans()),
         "cls": draw(st.sampled_from(nodes.TREE_CLASSES)),
+        "mutations": draw(strategies.tree_mutations()),
     }
 
 
